@@ -25,7 +25,7 @@ pub enum Shape {
     A,
     /// newest committed variable (or the constant 3)
     B,
-    /// c1*vars[-1] + c2*vars[-2] - 7
+    /// c1*vars[-1] + c2*vars[-2] - 7 + c2*vars[-1] + 2   (repeated variable, two constant terms)
     C,
     /// sum (i+1)*vars[i]
     D,
@@ -582,6 +582,11 @@ impl<F: PrimeField> Ctx<F> {
                     t.push((self.vars[n - 2], c2));
                 }
                 t.push((one, -F::from(7u64)));
+                // repeated variable and a second constant term in the same combination
+                if n >= 1 {
+                    t.push((self.vars[n - 1], c2));
+                }
+                t.push((one, F::from(2u64)));
                 t
             }
             Shape::D => {
